@@ -277,6 +277,7 @@ func c11Property(t *rapid.T) {
 		contHashes = append(contHashes, exec(w.N, b))
 	}
 	ops = append(ops, fmt.Sprintf("crash height %d (%d txs), %d continuation blocks", h, len(crashBlock.txs), len(cont)))
+	refMeta := w.N.Ledger.GetChainMeta() // height, head hash and cumulative interchain count of the uncrashed node
 
 	// the durable writes of the state store for this block are counted by a run on a copy (normally one batch, two
 	// when journals are pruned); for every proper prefix of them a copy of the state store with exactly that prefix
@@ -436,6 +437,17 @@ func c11Property(t *rapid.T) {
 				}
 				if blk.BlockHash.String() != wantHashes[i] {
 					return fmt.Sprintf("after recovery block %d has hash %s, the uncrashed node has %s", hh, blk.BlockHash.String(), wantHashes[i])
+				}
+			}
+			// the chain meta of the recovered node - in memory and as stored (read after one more restart) - is the uncrashed node's
+			for pass := 0; pass < 2; pass++ {
+				m := n.Ledger.GetChainMeta()
+				if m.Height != refMeta.Height || m.BlockHash.String() != refMeta.BlockHash.String() || m.InterchainTxCount != refMeta.InterchainTxCount {
+					return fmt.Sprintf("after recovery and continuation the chain meta is (height %d, hash %s, interchain count %d), the uncrashed node has (%d, %s, %d) [pass %d]",
+						m.Height, m.BlockHash.String(), m.InterchainTxCount, refMeta.Height, refMeta.BlockHash.String(), refMeta.InterchainTxCount, pass)
+				}
+				if pass == 0 {
+					n.Reopen()
 				}
 			}
 			return ""
